@@ -1055,6 +1055,14 @@ def k3_prims():
             return fresh(ANY, 'no_such_arg')
         return x['args'][j]
 
+    def ext_nargs(I, a, k, n):
+        """number of positional / keyword arguments of the i-th macro / filler call: ext_nargs(i) ==
+        positional count, ext_nargs(i, 'kw') == keyword count"""
+        x = _ext(I, _c(a[0]))
+        if not x:
+            return VInt(-1)
+        return VInt(len(x['kwargs']) if len(a) > 1 else len(x['args']))
+
     def ext_out(I, a, k, n):
         x = _ext(I, _c(a[0]))
         return VStr(x['out']) if x and 'out' in x else VStr(z3.String(fresh_name('no_out')))
@@ -1191,7 +1199,7 @@ def k3_prims():
              scope_frame, template_pos, template_rpos, token_now, ext_count, ext_token, ext_last, ext_raised, ext_callee, ext_result, ext_arg, ext_out, ext_i18n, is_stream,
              is_rcontext, is_scope_copy, scope_arg_visible, attr_of, module_function, globals_visible,
              in_local, translate_arg, translate_result, normalize, i18n0,
-             holes_here, repeat_failed, repeat_kept, repeat_restored, loop_failed, iter_S0, iter_item, chain_len, i18n_now, i18n_at, global_now, in_globals, handler_calls, handler_configured,
+             holes_here, repeat_failed, repeat_kept, repeat_restored, loop_failed, iter_S0, iter_item, chain_len, i18n_now, i18n_at, global_now, in_globals, ext_nargs, handler_calls, handler_configured,
              translate_calls, quote_calls, errorinfo_of, token_at_eval, token_pos)}
 
 
